@@ -56,7 +56,7 @@ def gen_plan(rng, index, tier):
     if rng.random() < 0.3:
         bp["liner"] = True  # a solid liner of user-defined composition (material Custom) in the fuel blocks
     if rng.random() < 0.3:
-        bp["fuel_target"] = "clad"  # the blueprint designates the clad, not the fuel, as the fuel blocks' target
+        bp["fuel_target"] = rng.choice(["clad", "clad", "duct"])  # the blueprint designates the clad (or the duct: the second HT9 component of the block, with another input temperature), not the fuel, as the fuel blocks' target
     cfg = {"reactor": "gen", "blueprint": bp, "settings": {"nCycles": 1, "burnSteps": 1, "detailedAxialExpansion": True}, "actors": []}
     if rng.random() < 0.25:
         cfg["sharedComposition"] = True
